@@ -390,18 +390,45 @@ def _init_worker():
     ensure_repo_import()
 
 
+def _compiling(kind, cache_max=3):
+    """One compiling Decoder / Encoder per worker process, shared by all the behaviours the worker replays: the programs
+    of a run meet in its small cache (hits for the same template with other factors and bitmaps, evictions in between)."""
+    key = (kind, os.getpid())
+    if key not in _COMPILING:
+        from pybufrkit.decoder import Decoder
+        from pybufrkit.encoder import Encoder
+        _COMPILING[key] = (Decoder if kind == 'dec' else Encoder)(compiled_template_cache_max=cache_max)
+    return _COMPILING[key]
+
+
+_COMPILING = {}
+
+
 def _work(args):
     mode, behs = args
     out = []
     for beh in behs:
         r = {'bad_dec': None, 'bad_enc': None, 'enc_bytes': None, 'bad_tr': None}
+        # a program that satisfies Compiler.Scoped (the flag travels with the behaviour) must give the same result with template
+        # compilation on: "the decoder" / "the encoder" of C01 / C02 includes that configuration
+        compiled = beh.get('scoped') and 'nocompile' not in mode
         if 'decode' in mode:
             r['bad_dec'], _ = replay_decode(beh)
+            if r['bad_dec'] is None and compiled:
+                bad, _ = replay_decode(beh, decoder=_compiling('dec'))
+                if bad:
+                    r['bad_dec'] = (('compiled',) + tuple(bad[0]), 'with template compilation (one decoder for the run): ' + bad[1])
         if 'encode' in mode:
             bad, msg = replay_encode(beh, canonical=not beh['cmp'])
             r['bad_enc'] = bad
             if bad is None and beh['cmp']:
                 r['enc_bytes'] = bytes(msg.serialized_bytes)
+            if bad is None and compiled:
+                bad2, msg2 = replay_encode(beh, encoder=_compiling('enc'), canonical=not beh['cmp'])
+                if bad2 is None and beh['cmp'] and bytes(msg2.serialized_bytes) != bytes(msg.serialized_bytes):
+                    bad2 = (('encode', 'bytes', 'differ', 'cmp'), 'compressed output differs from the output without compilation')
+                if bad2:
+                    r['bad_enc'] = (('compiled',) + tuple(bad2[0]), 'with template compilation (one encoder for the run): ' + bad2[1])
         if 'transparent' in mode and beh['cmp'] and r['bad_dec'] is None:
             r['bad_tr'] = replay_transparent(beh)
         out.append(r)
